@@ -55,6 +55,9 @@ def values(r, tier):
     return out
 
 
+CASED_SAMPLE = [0]
+
+
 def check(m, cu, mt, q, st, en, val, dec, th, form, ctx):
     from rtmon import lib
     lit = q[st:en + 1].lstrip('-')
@@ -117,6 +120,16 @@ def check(m, cu, mt, q, st, en, val, dec, th, form, ctx):
                     mech = 'value-not-a-number'
     if mech:
         ctx.fail(mech + (':pct' if pct else ''), where, key, case, {'span': [st, en], 'value': str(val)}, {'entities': obs, 'swallowed': lib.take_swallowed()})
+    elif CASED_SAMPLE[0] % 11 == 0:
+        # the public helper with the culture code in its BCP-47 spelling (fr-FR, DE-DE): the same entities as the model asked directly
+        from recognizers_number import recognize_number, recognize_percentage
+        f = recognize_percentage if pct else recognize_number
+        code = (cu[:3] + cu[3:].upper()) if CASED_SAMPLE[0] % 2 else cu.upper()
+        obs2 = [lib.ent(e) for e in f(q, code)]
+        ctx.event('public_helper_cased_culture_runs')
+        if obs2 != obs:
+            ctx.fail('literal-depends-on-letter-case-of-culture-code' + (':pct' if pct else ''), where, key, dict(case, culture_code=code), obs, obs2)
+    CASED_SAMPLE[0] += 1
 
 
 def run(job, ctx):
